@@ -785,6 +785,79 @@ func main() {
 		})
 	}
 	w("def coalesceErrChanCaps : List String := %s", lstr(errCaps))
+	// how the query's options reach the operators: every call argument in execution.go that
+	// mentions `opts`, the fields `WithEndTime` overwrites, and what `NumSteps` reads - the
+	// operators of one plan share one window (the alignment hypothesis of Streams.lean) because
+	// nothing else is ever handed down
+	optsArgs := map[string]bool{}
+	if f := find(files, "execution/execution.go"); f != nil {
+		ast.Inspect(f, func(n ast.Node) bool {
+			c, ok := n.(*ast.CallExpr)
+			if !ok {
+				return true
+			}
+			for _, a := range c.Args {
+				mentions := false
+				ast.Inspect(a, func(m ast.Node) bool {
+					if id, ok := m.(*ast.Ident); ok && id.Name == "opts" {
+						mentions = true
+					}
+					return true
+				})
+				// the innermost arguments only: an argument that is itself a call of something else
+				// is visited on its own
+				if r := render(a); mentions && (strings.HasPrefix(r, "opts") || strings.HasPrefix(r, "&")) {
+					optsArgs[r] = true
+				}
+			}
+			return true
+		})
+	}
+	var optsArgList []string
+	for a := range optsArgs {
+		optsArgList = append(optsArgList, a)
+	}
+	sort.Strings(optsArgList)
+	w("def optsArgs : List String := %s", lstr(optsArgList))
+	var wetWrites, numStepsReads []string
+	if f := find(files, "query/options.go"); f != nil {
+		if fd := funcDecl(f, "WithEndTime"); fd != nil && fd.Body != nil {
+			ast.Inspect(fd.Body, func(n ast.Node) bool {
+				if as, ok := n.(*ast.AssignStmt); ok {
+					for _, l := range as.Lhs {
+						wetWrites = append(wetWrites, render(l)+" "+as.Tok.String()+" "+render(as.Rhs[0]))
+					}
+				}
+				return true
+			})
+		}
+		if fd := funcDecl(f, "NumSteps"); fd != nil && fd.Body != nil {
+			seen := map[string]bool{}
+			ast.Inspect(fd.Body, func(n ast.Node) bool {
+				if se, ok := n.(*ast.SelectorExpr); ok {
+					if r := render(se); strings.HasPrefix(r, "o.") && !seen[r] {
+						// the longest selector chains only
+						seen[r] = true
+					}
+				}
+				return true
+			})
+			for r := range seen {
+				longer := false
+				for q := range seen {
+					if q != r && strings.HasPrefix(q, r+".") {
+						longer = true
+					}
+				}
+				if !longer {
+					numStepsReads = append(numStepsReads, r)
+				}
+			}
+			sort.Strings(numStepsReads)
+		}
+	}
+	w("def withEndTimeWrites : List String := %s", lstr(wetWrites))
+	w("def numStepsReads : List String := %s", lstr(numStepsReads))
 	sort.Strings(closeCalls)
 	w("def execPointsWrites : List String := %s", lstr(pointsWrites))
 	w("def execPoolPuts : List String := %s", lstr(poolPuts))
